@@ -2,7 +2,9 @@
 import importlib
 import json
 import os
+import subprocess
 import sys
+import tempfile
 import traceback
 
 from . import env, report
@@ -15,6 +17,79 @@ def _seed():
         return 0
 
 
+# ---- configuration children -------------------------------------------------------------------------------------------
+# pyplate.yaml documents default_solid_density / default_enzyme_density ("can be set to float('inf') to give solids and
+# enzymes zero volume"). The configuration is read once at import, so each one is explored by a child process that runs the
+# same check (quick depth) under that configuration; its violations, counters and non-trivial classes are merged here.
+DENSITY_CONFIGS = [{'default_solid_density': 'inf', 'default_enzyme_density': 'inf'},
+                   {'default_solid_density': 2.165, 'default_enzyme_density': 1.35}]
+CHILD_TIERS = {'C01': ('quick', 'thorough'), 'C02': ('quick', 'thorough'), 'C03': ('quick', 'thorough'),
+               'C04': ('quick', 'thorough'), 'C05': ('quick', 'thorough'), 'C07': ('quick', 'thorough'),
+               'C08': ('quick', 'thorough'), 'C11': ('quick', 'thorough'), 'C12': ('quick', 'thorough'),
+               'C17': ('quick', 'thorough'), 'C19': ('quick', 'thorough'),
+               'C09': ('thorough',), 'C10': ('thorough',), 'C15': ('thorough',)}
+
+
+def _child_env(overrides, seed=None):
+    e = dict(os.environ)
+    e['PMC_CONFIG_OVERRIDES'] = json.dumps(overrides)
+    e['PYTHONHASHSEED'] = '0'
+    if seed is not None:
+        e['VERIF_SEED'] = str(seed)
+    return e
+
+
+def start_children(pid, tier, seed, tmp):
+    if tier not in CHILD_TIERS.get(pid, ()) or os.environ.get('PMC_CONFIG_OVERRIDES') or os.environ.get('PMC_NO_CHILDREN'):
+        return []
+    picks = [DENSITY_CONFIGS[seed % len(DENSITY_CONFIGS)]] if tier == 'quick' else DENSITY_CONFIGS
+    out = []
+    for i, cfg in enumerate(picks):
+        path = os.path.join(tmp, f'child{i}.json')
+        cseed = seed + i
+        p = subprocess.Popen([sys.executable, '-m', 'pmc.run', pid, 'quick', '--child', path], cwd=env.VERIF,
+                             env=_child_env(cfg, cseed), stdout=subprocess.PIPE, stderr=subprocess.PIPE, text=True)
+        out.append((cfg, cseed, path, p))
+    return out
+
+
+def merge_children(col, children):
+    for cfg, cseed, path, p in children:
+        _, err = p.communicate()
+        if p.returncode != 0 or not os.path.exists(path):
+            raise env.InternalError(f"configuration child {cfg} failed (exit {p.returncode}):\n{err[-3000:]}")
+        with open(path) as f:
+            res = json.load(f)
+        for v in res['violations']:
+            v['case'] = {'_config': cfg, 'case': v['case']}
+            v['message'] = f"[under configuration {json.dumps(cfg)}] " + v['message']
+        col.add(res['violations'])
+        col.merge_counts(res['counters'])
+        col.note_nontrivial({report.digest((json.dumps(cfg, sort_keys=True), d)) for d in res['nontrivial']})
+        col.exhaustive = col.exhaustive and res['exhaustive']
+        col.cov.setdefault('configuration_children', []).append(
+            {'overrides': cfg, 'tier': 'quick', 'seed': cseed, 'violation_instances': len(res['violations']),
+             'counters': {k: res['counters'].get(k, 0) for k in ('states', 'transitions', 'traces', 'evaluations')},
+             'distinct_nontrivial': len(res['nontrivial'])})
+    if children:
+        col.assumptions.append("configurations of default_solid_density / default_enzyme_density other than the default are "
+                               "explored at the quick depth (see coverage.configuration_children)")
+
+
+def replay_in_config(pid, case):
+    """Replay a case found by a configuration child: in a fresh process under that configuration."""
+    with tempfile.TemporaryDirectory(prefix='pmc_child_') as tmp:
+        cin, cout = os.path.join(tmp, 'case.json'), os.path.join(tmp, 'out.json')
+        with open(cin, 'w') as f:
+            json.dump(case['case'], f)
+        p = subprocess.run([sys.executable, '-m', 'pmc.run', pid, '--child-replay', cin, cout], cwd=env.VERIF,
+                           env=_child_env(case['_config']), capture_output=True, text=True)
+        if p.returncode != 0:
+            raise env.InternalError(f"replay under {case['_config']} failed:\n{p.stderr[-3000:]}")
+        with open(cout) as f:
+            return json.load(f)
+
+
 def main(argv):
     if not argv:
         print(__doc__)
@@ -25,6 +100,9 @@ def main(argv):
                 rec = json.load(f)
             if rec.get('config_overrides'):
                 os.environ['PMC_CONFIG_OVERRIDES'] = json.dumps(rec['config_overrides'])
+            if isinstance(rec['case'], dict) and '_config' in rec['case']:
+                os.environ['PMC_CONFIG_OVERRIDES'] = json.dumps(rec['case']['_config'])
+                rec['case'] = rec['case']['case']
             mod = importlib.import_module(f"pmc.checks.{rec['property']}")
             vs = mod.replay(rec['case'])
             hit = [v for v in vs if v['signature'] == rec['signature']]
@@ -37,13 +115,41 @@ def main(argv):
             return 0
         pid = argv[0]
         tier = argv[1] if len(argv) > 1 else os.environ.get('VERIF_TIER', 'quick')
+        mod = importlib.import_module(f"pmc.checks.{pid}")
+        if tier == '--child-replay':
+            with open(argv[2]) as f:
+                case = json.load(f)
+            with open(argv[3], 'w') as f:
+                json.dump(report.jsonable(mod.replay(case)), f)
+            return 0
         if tier not in ('quick', 'thorough'):
             print(f"unknown tier {tier}")
             return 2
-        mod = importlib.import_module(f"pmc.checks.{pid}")
         col = report.Collector(pid, tier, _seed())
-        mod.run(col)
-        return report.finish(col, getattr(mod, 'replay', None))
+        if len(argv) > 3 and argv[2] == '--child':
+            mod.run(col)
+            with open(argv[3], 'w') as f:
+                json.dump(report.jsonable({'violations': col.violations, 'counters': dict(col.counters),
+                                           'nontrivial': sorted(d.hex() if isinstance(d, bytes) else str(d)
+                                                                for d in col.nontrivial),
+                                           'exhaustive': col.exhaustive}), f)
+            return 0
+        with tempfile.TemporaryDirectory(prefix='pmc_child_') as tmp:
+            children = start_children(pid, tier, col.seed, tmp)
+            try:
+                mod.run(col)
+                merge_children(col, children)
+            finally:
+                for _, _, _, p in children:
+                    if p.poll() is None:
+                        p.kill()
+        inner = getattr(mod, 'replay', None)
+
+        def replay_fn(case):
+            if isinstance(case, dict) and '_config' in case:
+                return replay_in_config(pid, case)
+            return inner(case)
+        return report.finish(col, replay_fn if inner else None)
     except env.InternalError as e:
         print(f"INTERNAL-ERROR: {e}", file=sys.stderr)
         return 2
